@@ -235,8 +235,15 @@ impl AsyncWrite for UtpStreamWriteHalf {
             return Poll::Ready(Ok(()));
         }
 
-        g.writer_shutdown = true;
         update_optional_waker(&mut g.writer_waker, cx);
+        if !g.writer_shutdown {
+            g.writer_shutdown = true;
+            // The dispatcher must notice the shutdown request to emit the FIN.
+            if let Some(w) = g.dispatcher_waker.take() {
+                drop(g);
+                w.wake();
+            }
+        }
         Poll::Pending
     }
 }
